@@ -271,6 +271,39 @@ def catalogue():
     add("RotationLink(leader on axis)", "on axis", "out", lambda: cb.RotationLink([0, 0, 1], [1, 0, 0], [0, 0, 1], [0, 0, 0]))
     add("RotationLink(leader on axis)", "off axis", "in", lambda: cb.RotationLink([1, 0, 1], [1, 1, 0], [0, 0, 1], [0, 0, 0]))
 
+    # --- a write() that is refused during assembly must not leave half a mesh behind for the next write()
+    def write_after_refused_write(repair):
+        import os
+
+        from mc import foamdict, runner
+
+        ops = []
+        for x in range(3):
+            b = cb.Box([x, 0, 0], [x + 1, 1, 1])
+            for a in range(3):
+                b.chop(a, count=1)
+            ops.append(b)
+        ops[1].bottom_face.add_edge(0, cb.Angle(0.0, [0, 0, 1]))  # a sector angle of 0: refused when the edge is made
+        m = cb.Mesh()
+        for b in ops:
+            m.add(b)
+        path = os.path.join(runner.scratch_dir(), f"c20_{os.getpid()}")
+        try:
+            m.write(path)
+        except Exception:
+            pass
+        else:
+            raise AssertionError("the first write() was expected to be refused")
+        if repair:
+            ops[1].bottom_face.add_edge(0, cb.Angle(0.5, [0, 0, 1]))
+        m.write(path)
+        n = len(foamdict.parse(open(path).read())["blocks"])
+        if n != 3:
+            raise AssertionError(f"{n} of 3 blocks written")
+
+    add("Mesh.write() after a write() refused for an invalid edge", "input unchanged", "out", lambda: write_after_refused_write(False))
+    add("Mesh.write() after a write() refused for an invalid edge", "input repaired", "in", lambda: write_after_refused_write(True))
+
     # --- life cycle
     def lifecycle(call, history):
         m = cb.Mesh()
